@@ -38,6 +38,9 @@ let oracle (toks : string list) (obs : string) : (string * bool) list =
        let ok_order = (match expect with Some e -> c = e | None -> c = "L" || c = "G") in
        let all_same = (match rest with p1 :: p2 :: p3 :: _ -> p1 = c && p2 = c && p3 = c | _ -> false) in
        let eqs = (match rest with _ :: _ :: _ :: e1 :: e2 :: e3 :: _ -> let e = b01 (a = b) in e1 = e && e2 = e && e3 = e | _ -> false) in
-       ["C20.order", ok_order; "C20.impls_agree", all_same; "C20.eq", eqs]
+       (* the < and > operators (timestamp/timestamp, timestamp/u32, u32/timestamp) say what cmp says *)
+       let ops = (match rest with _ :: _ :: _ :: _ :: _ :: _ :: lt1 :: gt1 :: lt2 :: lt3 :: _ ->
+                    lt1 = b01 (c = "L") && gt1 = b01 (c = "G") && lt2 = b01 (c = "L") && lt3 = b01 (c = "L") | _ -> false) in
+       ["C20.order", ok_order; "C20.impls_agree", all_same; "C20.eq", eqs; "C20.operators_agree_with_cmp", ops]
      | _ -> [])
   | _ -> []
